@@ -2307,7 +2307,9 @@ def convert_mean_to_depthwise_conv(op, arch, nng):
 
         # If all dimensions to reduce have shape 1, the operation is essentially a memcpy.
         # We can then remove the whole op by propagating ofm to previous ops
-        if not any([reduce_axis[i] and ifm_shape[i] > 1 for i in range(4)]):
+        if not any([reduce_axis[i] and ifm_shape[i] > 1 for i in range(4)]) and check_quantized_tens_scaling_equal(
+            op.ifm, op.ofm
+        ):
             op.type = Op.Memcpy
             op = bypass_memory_only_ops(op, arch, nng)
             return op
